@@ -454,8 +454,21 @@ def diffs_generator_protocol(env, cx, precset):
             K.set_precision(ctx, precset)
 
 
+def add_missing_solvers():
+    """every solver name known to the tree gets a callback entry (the table lists the 12 of the pinned snapshot)"""
+    try:
+        from mpmath.calculus.optimization import str2solver
+    except Exception:
+        return
+    for sname in sorted(str2solver):
+        if 'findroot/' + sname not in T.CALLBACKS:
+            T.CALLBACKS['findroot/' + sname] = ('findroot', (lambda c, cb, sname=sname: c.findroot(
+                cb(lambda x: x * x - 2), (1, 2), solver=sname)))
+
+
 def run_cb(shard, rec, env):
     tier, seed = shard['tier'], shard['seed']
+    add_missing_solvers()
     labels = list(T.CALLBACKS)
     for idx, label in enumerate(labels):
         if idx % shard['of'] != shard['part']:
@@ -594,6 +607,31 @@ def _exec_plan(ctx, plan, mgrs, path, log):
         log.append((path + (i,), before, K.ctx_state(ctx), rz))
 
 
+def manager_case(rec, env, cx, precset, ka, kb, plan):
+    """one plan of with-blocks over two manager objects; every block exit must restore the state before its entry"""
+    ctx, w = env.ctx[cx], env.watch[cx]
+    K.set_precision(ctx, precset)
+    s0 = K.ctx_state(ctx)
+    mgrs = [getattr(ctx, ka[0])(ka[1]), getattr(ctx, kb[0])(kb[1])]
+    log = []
+    w.begin()
+    _exec_plan(ctx, plan, mgrs, (), log)
+    pc = T.plan_class(plan)
+    case = {'section': 'manager', 'ctx': cx, 'precset': list(precset), 'managers': [list(ka), list(kb)], 'plan': plan}
+    rec.case((cx, 'mgr', precset, tuple(ka), tuple(kb), plan), pc != 'single', cls='manager/' + pc)
+    bad = [(p, b0, a0, rz) for p, b0, a0, rz in log if b0 != a0]
+    if bad:
+        p, b0, a0, rz = bad[0]
+        rec.violation('C11/leak/mpmath.ctx_mp.PrecisionManager[%s]/%s' % (pc, 'callback' if rz else 'normal-return'),
+                      'with-block exit does not restore the precision that was in effect before the block was entered '
+                      '(plan class %s)' % pc, dict(case, block=list(p)),
+                      observed=K.describe_state(a0), expected=K.describe_state(b0), severity=abs(a0[0] - b0[0]))
+    elif K.ctx_state(ctx) != s0:
+        rec.violation('C11/leak/mpmath.ctx_mp.PrecisionManager[%s]/final' % pc, 'state after the plan differs from the state before',
+                      case, K.describe_state(K.ctx_state(ctx)), K.describe_state(s0))
+    K.set_precision(ctx, precset)
+
+
 def run_managers(rec, env, tier):
     plans = T.manager_plans()
     precsets = PRECSETS_ALL if tier == 'thorough' else [('prec', 53), ('prec', 101), ('dps', 30), ('prec', 3)]
@@ -604,29 +642,10 @@ def run_managers(rec, env, tier):
         for precset in precsets:
             for a, b in pairs:
                 for plan in plans:
-                    K.set_precision(ctx, precset)
-                    s0 = K.ctx_state(ctx)
-                    mgrs = [getattr(ctx, MGR_KINDS[a][0])(MGR_KINDS[a][1]), getattr(ctx, MGR_KINDS[b][0])(MGR_KINDS[b][1])]
-                    log = []
-                    w.begin()
-                    _exec_plan(ctx, plan, mgrs, (), log)
-                    pc = T.plan_class(plan)
-                    case = {'section': 'manager', 'ctx': cx, 'precset': list(precset), 'managers': [list(MGR_KINDS[a]), list(MGR_KINDS[b])],
-                            'plan': plan}
-                    rec.case((cx, 'mgr', precset, a, b, plan), pc != 'single', cls='manager/' + pc)
-                    bad = [(p, b0, a0, rz) for p, b0, a0, rz in log if b0 != a0]
-                    if bad:
-                        p, b0, a0, rz = bad[0]
-                        rec.violation('C11/leak/mpmath.ctx_mp.PrecisionManager[%s]/%s' % (pc, 'callback' if rz else 'normal-return'),
-                                      'with-block exit does not restore the precision that was in effect before the block was entered '
-                                      '(plan class %s)' % pc, dict(case, block=list(p)),
-                                      observed=K.describe_state(a0), expected=K.describe_state(b0), severity=abs(a0[0] - b0[0]))
-                    elif K.ctx_state(ctx) != s0:
-                        rec.violation('C11/leak/mpmath.ctx_mp.PrecisionManager[%s]/final' % pc, 'state after the plan differs from the state before',
-                                      case, K.describe_state(K.ctx_state(ctx)), K.describe_state(s0))
+                    manager_case(rec, env, cx, precset, MGR_KINDS[a], MGR_KINDS[b], plan)
             # decorator forms
             run_decorators(rec, env, cx, precset)
-    rec.event('manager plans executed', rec.classes.get('manager/single', 0) + sum(v for k, v in rec.classes.items() if k.startswith('manager/')))
+    rec.event('manager plans executed', sum(v for k, v in rec.classes.items() if k.startswith('manager/')))
 
 
 def run_decorators(rec, env, cx, precset):
@@ -891,8 +910,12 @@ def replay(case, rec):
         elif sec in ('manager', 'decorator', 'generator'):
             if sec == 'generator':
                 diffs_generator_protocol(env, c.get('ctx', 'mp'), precset)
+            elif sec == 'manager':
+                def tup(x):
+                    return tuple(tup(y) for y in x) if isinstance(x, list) else x
+                manager_case(rec, env, c.get('ctx', 'mp'), precset, c['managers'][0], c['managers'][1], tup(c['plan']))
             else:
-                run_managers(rec, env, 'quick')
+                run_decorators(rec, env, c.get('ctx', 'mp'), precset)
         elif sec == 'law':
             run_laws(rec, env, nmax=max(50, int(c.get('n', 50))))
         else:
